@@ -12,9 +12,11 @@ EXTENDS BvLane
 
 IntOpsC01 == {"add", "sub", "mul", "neg", "abs", "min", "max", "fmin", "fmax", "incr", "decr", "incr_if", "decr_if",
               "fma", "fms", "fnma", "fnms", "divmod", "sign", "sadd", "ssub", "avg", "avgr", "clip",
-              "op+", "op-", "op*", "op/%", "op-u"}
+              "op+", "op-", "op*", "op/%", "op-u",
+              "op+=", "op-=", "op*=", "op/%=", "op++", "op--", "op++post", "op--post", "op++old", "op--old", "op+u"}
 IntOpsC07 == {"and", "or", "xor", "not", "andnot", "op&", "op|", "op^", "op~", "shl", "shr", "rotl", "rotr",
-              "shlv", "shrv", "rotlv", "rotrv", "op<<", "op>>", "op<<v", "op>>v"}
+              "shlv", "shrv", "rotlv", "rotrv", "op<<", "op>>", "op<<v", "op>>v",
+              "op&=", "op|=", "op^=", "op<<=", "op>>=", "op<<=v", "op>>=v"}
 
 \* a per-lane count taken from a lane of the same type: usable iff 0 <= count < bits
 CountOK(y) == BLt(y, FromInt(WB(y)))
@@ -31,8 +33,15 @@ DivModRel(S, x, y, q, rm) ==
     /\ (IsZero(q) \/ IsNeg(S, q) = (IsNeg(S, x) # IsNeg(S, y)))
     /\ (IsZero(rm) \/ IsNeg(S, rm) = IsNeg(S, x))
 
-IntRel(op, S, x, y, z, m, imm, r) ==
+\* member operators denote the named operation: x op= y leaves (and returns) x op y, ++x / x++ leave x + 1, x++ returns the old x, +x is x
+Canon(op) ==
+  CASE op = "op+=" -> "add" [] op = "op-=" -> "sub" [] op = "op*=" -> "mul" [] op = "op&=" -> "and" [] op = "op|=" -> "or" [] op = "op^=" -> "xor"
+    [] op \in {"op++", "op++post"} -> "incr" [] op \in {"op--", "op--post"} -> "decr" [] op \in {"op++old", "op--old", "op+u"} -> "id"
+    [] op = "op<<=" -> "shl" [] op = "op>>=" -> "shr" [] op = "op<<=v" -> "shlv" [] op = "op>>=v" -> "shrv" [] op = "op/%=" -> "op/%"
+    [] OTHER -> op
+IntRel0(op, S, x, y, z, m, imm, r) ==
   CASE op \in {"add", "op+"}  -> r = VAdd(x, y)
+    [] op = "id"      -> r = x
     [] op \in {"sub", "op-"}  -> r = VSub(x, y)
     [] op \in {"mul", "op*"}  -> r = VMul(x, y)
     [] op \in {"neg", "op-u"} -> r = VNeg(x)
@@ -67,6 +76,7 @@ IntRel(op, S, x, y, z, m, imm, r) ==
     [] op = "rotlv"   -> CountOK(y) => r = VRotl(x, Cnt(y))
     [] op = "rotrv"   -> CountOK(y) => r = VRotr(x, Cnt(y))
     [] OTHER -> FALSE
+IntRel(op, S, x, y, z, m, imm, r) == IntRel0(Canon(op), S, x, y, z, m, imm, r)
 
 (***************************************************************************)
 (* Known deviation of the code from C07 (recorded in known_findings.json,    *)
